@@ -24,6 +24,8 @@ Bin(op, l, r)  == [k |-> "bin", op |-> op, l |-> l, r |-> r]
 Un(op, e)      == [k |-> "un", op |-> op, e |-> e]
 Call(f, args)  == [k |-> "call", f |-> f, args |-> args]
 Idx(n, ix)     == [k |-> "index", n |-> n, ix |-> ix]       \* n[ix1, ix2, ...]
+IdxM(n, ixs)   == [k |-> "index", n |-> n, ix |-> ixs, multi |-> TRUE]   \* n[..][..]: several index operators on a name
+IdxE(base, ix) == [k |-> "indexexpr", base |-> base, ix |-> ix]      \* base[ix...] on a call, cast or index expression
 Cast(ty, e)    == [k |-> "cast", ty |-> ty, e |-> e]
 Rng(a, s, b)   == [k |-> "range", a |-> a, s |-> s, b |-> b]  \* a:s:b (s may be None)
 SetE(es)       == [k |-> "set", es |-> es]                  \* {e1, e2}
@@ -58,7 +60,7 @@ NeedsParen(e, cp, sd, pop) ==
   \* a unary operand directly to the right of a tighter binary operator is written in parentheses
   \/ e.k = "un" /\ sd = "R" /\ cp > UnaryPrec
 
-RECURSIVE PE(_, _, _, _, _), PT(_), PEs(_, _), PS(_, _), PSs(_, _), PB(_, _)
+RECURSIVE PE(_, _, _, _, _), PT(_), PEs(_, _), PS(_, _), PSs(_, _), PB(_, _), PIxs(_, _)
 (* PE(e, cp, sd, pop, full): tokens of e; full = parenthesise every compound subexpression *)
 PE(e, cp, sd, pop, full) ==
   LET body ==
@@ -69,7 +71,8 @@ PE(e, cp, sd, pop, full) ==
           [] e.k = "bin"  -> PE(e.l, Prec(e.op), "L", e.op, full) \o <<e.op>> \o PE(e.r, Prec(e.op), "R", e.op, full)
           [] e.k = "un"   -> <<e.op>> \o PE(e.e, UnaryPrec, "U", e.op, full)
           [] e.k = "call" -> <<e.f, "(">> \o PEs(e.args, full) \o <<")">>
-          [] e.k = "index" -> <<e.n, "[">> \o PEs(e.ix, full) \o <<"]">>
+          [] e.k = "index" -> (IF "multi" \in DOMAIN e THEN <<e.n>> \o PIxs(e.ix, full) ELSE <<e.n, "[">> \o PEs(e.ix, full) \o <<"]">>)
+          [] e.k = "indexexpr" -> PE(e.base, 0, "T", "", full) \o <<"[">> \o PEs(e.ix, full) \o <<"]">>
           [] e.k = "cast" -> PT(e.ty) \o <<"(">> \o PE(e.e, 0, "T", "", full) \o <<")">>
           [] e.k = "range" -> PE(e.a, 0, "T", "", full) \o <<":">> \o
                               (IF e.s = None THEN <<>> ELSE PE(e.s, 0, "T", "", full) \o <<":">>) \o PE(e.b, 0, "T", "", full)
@@ -79,6 +82,7 @@ PE(e, cp, sd, pop, full) ==
           [] e.k = "blockexpr" -> <<"{">> \o PSs(e.stmts, full) \o <<"}">>
       paren == IF e.k \in {"bin", "un"} THEN (IF full THEN sd # "T" ELSE NeedsParen(e, cp, sd, pop)) ELSE FALSE
   IN IF paren THEN <<"(">> \o body \o <<")">> ELSE body
+PIxs(ixs, full) == IF ixs = <<>> THEN <<>> ELSE <<"[">> \o PEs(ixs[1], full) \o <<"]">> \o PIxs(Tail(ixs), full)
 PEs(es, full) == Sep([i \in 1..Len(es) |-> PE(es[i], 0, "T", "", full)], ",")
 PT(ty) == IF ty.w = None THEN <<ty.b>>
           ELSE IF ty.w.k = "ty" THEN <<ty.b, "[">> \o PT(ty.w) \o <<"]">>
